@@ -61,7 +61,9 @@ def build(spec: Dict[str, Any]):
             src += ': int'        # in this mode every client parameter is annotated, only the injected one is not
         if 'default' in p:
             if p['default'].get('sentinel'):
-                ns_defaults[f"_SENTINEL_{p['name']}"] = object()    # a default that is not JSON-serialisable
+                # a default that is not JSON-serialisable: an application sentinel, or the library's own UNSET ("argument not given")
+                from pjrpc.common import UNSET
+                ns_defaults[f"_SENTINEL_{p['name']}"] = UNSET if p['default']['sentinel'] == 'UNSET' else object()
                 src += f" = _SENTINEL_{p['name']}"
             else:
                 src += ' = ' + repr(p['default']['value'])
@@ -100,7 +102,7 @@ def signatures(n: int) -> Iterator[List[Dict[str, Any]]]:
             for i, (k, d) in enumerate(zip(kinds, defaults)):
                 p: Dict[str, Any] = {'name': f'p{i}', 'kind': k}
                 if d:
-                    p['default'] = {'value': i} if (i + n) % 2 else {'sentinel': True}
+                    p['default'] = {'value': i} if (i + n) % 2 else {'sentinel': 'UNSET' if (i + n) % 4 == 2 else True}
                 params.append(p)
             if hm.valid_order([{**p, 'default': {'value': 0}} if 'default' in p else p for p in params]):
                 yield params
@@ -149,7 +151,7 @@ class C17(Check):
     chunk = 150
     rule = (
         "cases: (a) enumerated: every signature of <= 2 (quick) / <= 3 (thorough) parameters over positional-or-keyword / keyword-only x with / "
-        "without defaults (JSON values and non-JSON-serialisable sentinel objects), x context parameter designations (none, by name at each positional position, keyword-only, view constructor; also next to a client parameter whose name is contained in the context name) x "
+        "without defaults (JSON values, non-JSON-serialisable sentinel objects and the library's own UNSET), x context parameter designations (none, by name at each positional position, keyword-only, view constructor; also next to a client parameter whose name is contained in the context name) x "
         "exclusion predicate off / by name prefix / by missing annotation (an extra defaulted 'dep_' parameter, excluded in the extractor and in the validator) x function / view "
         "method, x the same function registered a second time without context designation (probed in both orders), x a leading positional-only parameter with a default (no parameter of a params object: never documented, never settable by name); (b) Hypothesis: signatures of up to 4 parameters with annotations. For each: the OpenAPI request schema and the OpenRPC params "
         "list are generated with PydanticSchemaExtractor, and ALL params objects over subsets of (documented names + one undocumented name + "
